@@ -289,6 +289,19 @@ def f28_named_after_cached_string():
         return True
 
 
+def f29_centrallybin_plus_select():
+    a = hg.CentrallyBin([1, 2, 3], lambda x: x)
+    b = hg.Select(lambda x: x > 0, hg.CentrallyBin([1, 2, 3], lambda x: x))
+    for x in (1, 2, 3, 2.5):
+        a.fill(x)
+        b.fill(x)
+    try:
+        a + b
+        return True          # merged silently through Select's attribute forwarding
+    except hg.defs.ContainerException:
+        return False
+
+
 if __name__ == "__main__":
     present = 0
     for name, fn in sorted((k, v) for k, v in globals().items() if k.startswith("f") and k[1:3].isdigit()):
